@@ -11,6 +11,9 @@ CHECKS = {
  "C01": dict(cat="model_checking", ref="5/C01",
    tech="TLA+ spec Frame.tla; TLC exhaustive bounded enumeration (MC_FrameC01) with every state replayed on Header.Encode/Decode; trace validation of recorded implementation events (Trace_FrameC01)",
    text="TLC checks RoundTrip/Transparent on the Frame specification for every source-header variant x reply id x serial x body up to the bound over an alphabet holding every special byte (plus forced 7E/7D/01/02 checksums) and emits each state with the expected bytes; the real Header.Encode must produce exactly those bytes and JTMessage.Decode must invert them. In the other direction seeded random bodies 0..1023 bytes over all 256 values, run through the real code, are validated event by event against the same operators."),
+ "C02": dict(cat="model_checking", ref="5/C02",
+   tech="TLA+ spec Frame.tla (operational Decode vs declarative canonical-form WellFormed); TLC exhaustive enumeration of short strings, wire-level escape strings and all single mutations of seed frames (MC_FrameC02), each replayed on JTMessage.Decode; trace validation of random frames/corruptions (Trace_FrameC02)",
+   text="TLC proves Decode(f).ok <=> WellFormed(f) on the specification for every string of three exhaustive families (all short strings without interior delimiter; valid header + every wire-level escape string with length/checksum exact and off by one, checksum escaped and raw; every single-bit flip, substitution, truncation, deletion, insertion of 14 seed frames of both versions with and without sub-package fields) and emits each with the verdict and the positional field values; the real decoder must agree on accept/reject and on every field. Random valid frames over all byte values (bodies to 1023, reserved bits, arbitrary version bytes and package numbers) and their corruptions, decoded by the real code, are validated by TLC against WellFormed and the field reading."),
 }
 
 NA_REASON = "check not built yet (work in progress; see DESIGN.md section 10)"
